@@ -25,3 +25,31 @@ PROPS["C19"] = dict(
     assumptions=["sizes whose honest execution needs more than ~64 KiB of source data are generated only in the must-be-refused region",
                  "the growth policy itself is not pinned, only bounds/content/NUL"],
 )
+
+PROPS["C01"] = dict(
+    harness="C01_parse.cpp", level="exploration",
+    technique="grammar-based text generation vs an independent RFC 8259 reference parser and an exact big-integer decimal->binary64 rounding judge; exhaustive escape/surrogate/scalar/integer-boundary sub-spaces; reference-filtered libFuzzer",
+    level_text="generated valid texts (every escape form, surrogate combination, number shape incl. constructed rounding midpoints, "
+               "whitespace layout, nesting to the limit) parsed in default and strict mode and compared with a reference parser written "
+               "from the RFC; complete enumeration of \\uXXXX units, surrogate pairings, scalar values and 64-bit boundary integers",
+    level_note="trusts the reference parser and rounding judge in /verif/model (integer arithmetic only, cross-checked against CPython in selftest); depth <= 31 here (C15 owns other limits)",
+    rule="texts from a grammar-directed generator (not serialised trees); non-trivial = contains an escape, non-ASCII, a fraction/exponent, "
+         "an integer within 3 of a 2^31/2^32/2^53/2^63/2^64 bound, nesting >= 2 or a duplicate key; distinct by text hash. Enumerations count every item.",
+    quick=[dict(mode="grammar", cases=160000, workers=8, maxbytes=3000),
+           dict(mode="u16", enum=True, size=65536, workers=4),
+           dict(mode="ints", enum=True, size=460, workers=1),
+           dict(mode="pairs", enum=True, size=1048576, workers=8),
+           dict(mode="scalars", enum=True, size=0x110000, workers=8)],
+    thorough=[dict(mode="grammar", cases=12000000, workers=16, maxbytes=6000),
+              dict(mode="u16", enum=True, size=65536, workers=4),
+              dict(mode="ints", enum=True, size=460, workers=1),
+              dict(mode="pairs", enum=True, size=1048576, workers=16),
+              dict(mode="scalars", enum=True, size=0x110000, workers=16),
+              dict(mode="dblgrid", enum=True, size=4194304, workers=16),
+              dict(mode="filter", fuzz=True, secs=300, jobs=8, max_len=512, dict="fuzz/tokener_parse_ex.dict"),
+              dict(mode="grammar", fuzz=True, secs=300, jobs=8, max_len=2048)],
+    min_labels=dict(quick=dict(escape=20000, surrogate=8000, non_integer=20000, boundary_int=5000, midpoint_number=3000,
+                               dup_key=1000, nesting_ge2=10000, nesting_ge20=20, huge_int=500)),
+    assumptions=["nesting depth <= 31 (default limit; other limits belong to C15)", "texts <= ~6 KiB",
+                 "member names containing U+0000 are excluded while the known finding nul-in-member-name is listed"],
+)
